@@ -28,8 +28,9 @@ def cases(ctx):
             continue
         k = rng.choice(SCALES)
         # feature size after scaling: shortest edge and closest approach of crossings to vertices stay >= 1e-2
-        if _min_feature(env) * k < F(1, 100):
-            k = F(1)
+        if _min_feature(env) * k < F(1, 400):
+            k = F(1, 400) / _min_feature(env) if k < 1 else F(1)      # as small as the tolerance zone allows (edges >= 2.5e-3)
+            k = F(k).limit_denominator(10 ** 6)
         num = "float" if i % 4 == 3 else "frac"
         # float data: ^ joins two halves that touch at crossing points which are no longer bit-identical
         # (inexact-contact class, known finding F17 under C01): the float stream uses | & - ~ only
